@@ -245,7 +245,8 @@ claim("C08", "proof",
       "that is idempotent once complete ends in the same state; extra slices are no-ops) is proved in Lean 4 and re-checked on "
       "every run; idempotence once complete is C09's obligation on the real Iterate. Python: RDScript.rng_seed keeps the given "
       "integer or draws one and keeps it; simulate_script calls setup, run until false, get_output, finalize in that order "
-      "(bounded: mock engine, 0..3 slices).",
+      "(bounded: mock engine, 0..3 slices). A syntactic frame obligation over every function body clang reports for the engine "
+      "sources (set-up helpers and GenerateStochasticDistribution included): no local variable of static storage.",
       "Bit-identity of floating point and determinism of std::mt19937/distributions for a given state are assumed (A2). That the "
       "seed and a copy of the script reach the engine / the trajectory is C04's seam obligation; independence from other live "
       "engine objects does not hold (known finding of C10: one native simulation per process).",
@@ -261,7 +262,8 @@ claim("C16", "other",
       "x face area; distance^2 = squared distance of member centroids x edge^2 (ghost cube root); group amount = sum of member "
       "amounts (SI), group chemostated iff any member; un-coarse-graining: dropped cells zero, every member gets value/|group| "
       "(so totals are preserved), units, times and system kept. Identity-map simulation = plain simulation on the real "
-      "deterministic engine for 3 grids (concrete, tolerance 1e-9).",
+      "deterministic engine for 3 grids (concrete, tolerance 1e-9); that the coarse-grained graph reaches the native engine in the "
+      "script's units (volumes, edge surfaces and distances) is the graph seam contract shared from C04 (unbounded).",
       "This is a bounded stand-in in the shape/map dimension, not a proof for all grids: the functions index lists of objects by map "
       "entries and de-duplicate edges by list membership, which the generic-iteration rules cannot abstract. Counted as bounded "
       "in the evidence. Fixed in this round: maps dropping cells of two different environments were rejected.",
